@@ -5,6 +5,8 @@
 mod ext;
 mod ext2;
 mod ext3;
+mod ext4;
+mod enc;
 mod gen;
 mod interp;
 mod props;
